@@ -208,7 +208,7 @@ theorem dtick_invC {inp : RunInput} {s s' : Sys} {perm : List Name} (hN : InvN i
 theorem init_invC (inp : RunInput) : InvC inp (init inp) :=
   ⟨fun n nd hn => by simp [init] at hn, fun t ht => DenCl.ofSel ht⟩
 
-theorem reach_invC {inp : RunInput} {s : Sys} (h : Reach inp s) : InvC inp s := by
+theorem reach_invC {inp : RunInput} [NoFailDeliver inp] {s : Sys} (h : Reach inp s) : InvC inp s := by
   induction h with
   | init => exact init_invC inp
   | @next s0 s1 c hr hs ih =>
@@ -221,7 +221,7 @@ theorem reach_invC {inp : RunInput} {s : Sys} (h : Reach inp s) : InvC inp s := 
     | take w => cases hs
     | done w => cases hs
 
-theorem preach_invC {inp : RunInput} {s : Sys} (h : PReach inp s) : InvC inp s := by
+theorem preach_invC {inp : RunInput} [NoFailDeliver inp] {s : Sys} (h : PReach inp s) : InvC inp s := by
   induction h with
   | init => exact init_invC inp
   | @next s0 s1 c hr hs ih =>
@@ -235,7 +235,7 @@ theorem preach_invC {inp : RunInput} {s : Sys} (h : PReach inp s) : InvC inp s :
     | done w => exact ih.back (doneStep_back hs)
 
 /-- nothing outside the denotational closure is ever created, selected, executed or reported -/
-theorem reported_in_closure {inp : RunInput} {s : Sys} (hr : Reach inp s ∨ PReach inp s) (t : Name)
+theorem reported_in_closure {inp : RunInput} [NoFailDeliver inp] {s : Sys} (hr : Reach inp s ∨ PReach inp s) (t : Name)
     (h : Reported s t) : DenCl inp t := by
   have hC : InvC inp s := by rcases hr with a | a; exact reach_invC a; exact preach_invC a
   have h3 : Inv3 inp s := by rcases hr with a | a; exact reach_inv3 a; exact (preach_inv a).2
@@ -246,7 +246,7 @@ theorem reported_in_closure {inp : RunInput} {s : Sys} (hr : Reach inp s ∨ PRe
     have := h3.t t (by simp [stOf, hn, RS.finished])
     omega
 
-theorem created_in_closure {inp : RunInput} {s : Sys} (hr : Reach inp s ∨ PReach inp s) (t : Name)
+theorem created_in_closure {inp : RunInput} [NoFailDeliver inp] {s : Sys} (hr : Reach inp s ∨ PReach inp s) (t : Name)
     (nd : Node) (h : s.nodes t = some nd) : DenCl inp t := by
   have hC : InvC inp s := by rcases hr with a | a; exact reach_invC a; exact preach_invC a
   exact (hC.nodes t nd h).1
